@@ -47,6 +47,9 @@ CLAIMED = {
     "C15": ("exploration",
             "Seeded schedules of 2-6 holders with random lock maps (any read/write mix incl. empty and full) over 4 resource names on the real SharedMutex; interval exclusion checked at every entry; a deterministic independence probe (holder A parked inside, a compatible holder B must enter); any cycle of waiters is reported by the simulator's deadlock detector; the order in which a lock map is walked is a seeded choice.",
             "Sampling. simrt.RWMutex follows Go's writer-preference algorithm, so lock-order and read-recursion deadlocks are detectable."),
+    "C16": ("exploration",
+            "The whole application of C14; pip:try issued through the real terminal service with generated bodies (failing command at any position, nested tasks that succeed or fail after a simulated delay) and every subset of success / fail / finally handlers, handlers that themselves fail; oracle over the probe event log: handler iff outcome, finally always, every handler event later than every event of the body and of the tasks it spawned, the surrounding (session) scope holds an error iff a handler failed.",
+            "Sampling. One known finding (a failing handler cancels the other handlers) is matched by its shape and reported as KNOWN-FINDING; all other clauses stay judged in those runs."),
 }
 
 NOT_APPLICABLE = {
